@@ -179,19 +179,32 @@ theorem bits_roundtrip (k : Nat) (hk : 1 ≤ k) (idx : List Nat) (hne : idx ≠ 
 /-- BIP39: for every entropy size the code accepts — `entropy._bits`: 128..256 bits in steps of 32 and ALSO 512 bits
     (48 words; beyond the BIP's table, accepted by btclib) — leading zeros included, the sentence has
     ENT/32·3 words, all below 2048, and decodes back to the entropy — for any 32-byte hash -/
-theorem bip39_roundtrip (H : Bytes → Bytes) (hH : ∀ b, (H b).length = 32) (e : Bits)
+theorem bip39_roundtrip_any_hash (H : Bytes → Bytes) (hH : ∀ b, (H b).length = 32) (e : Bits)
     (hL : e.length ∈ Gen.Mnemonic.ENTROPY_BITS) :
     ∃ idx, bip39Indexes H e = some idx ∧ idx.length = e.length / 32 * 3 ∧ (∀ i ∈ idx, i < 2048) ∧
       bip39Entropy H idx = some e :=
   bip39_roundtrip_all H hH e hL
 
+/-- the same with NO hypothesis, for the SHA-256 the driver runs (`sha256_length` discharges the length) -/
+theorem bip39_roundtrip (e : Bits) (hL : e.length ∈ Gen.Mnemonic.ENTROPY_BITS) :
+    ∃ idx, bip39Indexes sha256 e = some idx ∧ idx.length = e.length / 32 * 3 ∧ (∀ i ∈ idx, i < 2048) ∧
+      bip39Entropy sha256 idx = some e :=
+  bip39_roundtrip_all sha256 sha256_length e hL
+
 /-- BIP39, with no side condition on the sentence: it is accepted (decoding to `e`) exactly when it has 12, 15, 18,
     21, 24 (or 48) words and is the encoding of `e` — i.e. its last ENT/32 bits equal the hash prefix.  Every other
     length, any index ≥ 2048, any wrong checksum bit is refused. -/
-theorem bip39_accepted_iff_encoding (H : Bytes → Bytes) (hH : ∀ b, (H b).length = 32) (idx : List Nat) (e : Bits) :
+theorem bip39_accepted_iff_encoding_any_hash (H : Bytes → Bytes) (hH : ∀ b, (H b).length = 32) (idx : List Nat)
+    (e : Bits) :
     bip39Entropy H idx = some e ↔
       idx.length ∈ [12, 15, 18, 21, 24, 48] ∧ bip39Indexes H e = some idx ∧ e.length = idx.length / 3 * 32 :=
   bip39Entropy_eq_some_iff_full H hH idx e
+
+/-- the same with NO hypothesis at all, for the SHA-256 the driver runs -/
+theorem bip39_accepted_iff_encoding (idx : List Nat) (e : Bits) :
+    bip39Entropy sha256 idx = some e ↔
+      idx.length ∈ [12, 15, 18, 21, 24, 48] ∧ bip39Indexes sha256 e = some idx ∧ e.length = idx.length / 3 * 32 :=
+  bip39Entropy_eq_some_iff_full sha256 sha256_length idx e
 
 /-- Electrum: the self-check of `_search_mnemonic` (`candidate == int(entropy_from(mnemonic_of(candidate)))`) holds
     for every candidate and every word-list length ≥ 2 (2048, and the 1626 of Electrum's Portuguese) -/
@@ -251,11 +264,11 @@ theorem bip85_tables_are_the_bips :
 /-- `dispatch._bip39_seed_type(mnemonic, lang)`: for a sentence of 12..24 words all in the NAMED language's list,
     the answer is "bip39" exactly when the indexes IN THAT LIST are the BIP39 encoding of some entropy — whatever
     the same words spell in another list that shares them -/
-theorem dispatch_bip39_verdict_is_named_language (H : Bytes → Bytes) (hH : ∀ b, (H b).length = 32)
-    (idx : List Nat) (hn : idx.length ∈ [12, 15, 18, 21, 24]) (hlt : ∀ i ∈ idx, i < 2048) :
-    bip39SeedType H idx.length true idx = "bip39" ↔
-      ∃ e, bip39Indexes H e = some idx ∧ e.length = idx.length / 3 * 32 :=
-  bip39SeedType_eq_bip39_iff H hH idx hn hlt
+theorem dispatch_bip39_verdict_is_named_language (idx : List Nat) (hn : idx.length ∈ [12, 15, 18, 21, 24])
+    (hlt : ∀ i ∈ idx, i < 2048) :
+    bip39SeedType sha256 idx.length true idx = "bip39" ↔
+      ∃ e, bip39Indexes sha256 e = some idx ∧ e.length = idx.length / 3 * 32 :=
+  bip39SeedType_eq_bip39_iff sha256 sha256_length idx hn hlt
 
 /-- … a word outside the named list: no BIP39 claim; any other word count: "bip39_wordlist"; SLIP39 goes first,
     Electrum second, BIP39 last, and `seed_type_from_mnemonic` is the first of the plural answer -/
@@ -405,20 +418,30 @@ theorem slip39_sentences_end_to_end
 example : validPassphrase [84, 82, 69, 90, 79, 82] = true ∧ validLength (List.replicate 16 (7 : UInt8)).length = true ∧
     groupsAdmissible [(1, 1), (2, 3), (1, 1)] = true := by decide
 
-/-- refusals, lifted to what `master_secret_from_mnemonics` runs: a decoded share set in which some group does not
-    hold EXACTLY its member threshold, or whose number of groups differs from the group threshold, is an error -/
-theorem slip39_master_secret_refuses (hm : Bytes → Bytes → Bytes) (F : ByteShare → Nat → Bytes → Bytes)
-    (sentences : List (List Nat)) (first : ByteShare) (rest : List ByteShare)
+/-- refusals, stated about the EXECUTED entry point `masterSecretFromMnemonics` (passphrase check + `masterSecret`;
+    what the driver answers `slip39.master` lines with — for any HMAC and round function, so in particular for
+    `hmacSha256` / `roundFunction pw`): a decoded share set in which some group does not hold EXACTLY its member
+    threshold, or whose number of groups differs from the group threshold, is an error whatever the passphrase -/
+theorem slip39_master_secret_refuses (hm : Bytes → Bytes → Bytes) (RF : Nat → Nat → Bool → Nat → Bytes → Bytes)
+    (pw : Bytes) (sentences : List (List Nat)) (first : ByteShare) (rest : List ByteShare)
     (hbs : sentences.mapM shareFromIndexes = .ok (first :: rest))
     (h : (∃ g t, g ∈ ((first :: rest).map toGF).map (·.groupIndex) ∧
             ((((first :: rest).map toGF).filter (·.groupIndex = g)).map (·.memberThreshold)).eraseDups = [t] ∧
             (((first :: rest).map toGF).filter (·.groupIndex = g)).length ≠ t) ∨
          ((((first :: rest).map toGF).map (·.groupIndex)).eraseDups.length ≠ (toGF first).groupThreshold)) :
-    ∃ e, masterSecret hm F sentences = .error e := by
-  apply masterSecret_error_of_recoverEms hm F sentences (first :: rest) hbs
-  rcases h with ⟨g, t, hg, ht, hn⟩ | hn
-  · exact recoverEms_wrong_member_count gf256Ops (digestGF hm) _ g t hg ht hn
-  · exact recoverEms_wrong_group_count gf256Ops (digestGF hm) (toGF first) (rest.map toGF) hn
+    ∃ e, masterSecretFromMnemonics hm RF pw sentences = .error e := by
+  have hms : ∃ e, masterSecret hm (fun f => RF f.iterationExponent f.identifier f.extendable) sentences = .error e := by
+    apply masterSecret_error_of_recoverEms hm _ sentences (first :: rest) hbs
+    rcases h with ⟨g, t, hg, ht, hn⟩ | hn
+    · exact recoverEms_wrong_member_count gf256Ops (digestGF hm) _ g t hg ht hn
+    · exact recoverEms_wrong_group_count gf256Ops (digestGF hm) (toGF first) (rest.map toGF) hn
+  obtain ⟨e, he⟩ := hms
+  unfold masterSecretFromMnemonics
+  by_cases hp : validPassphrase pw = true
+  · simp only [hp, not_true_eq_false, if_false, he]
+    exact ⟨_, rfl⟩
+  · simp only [hp]
+    exact ⟨_, rfl⟩
 
 /-- the length hypotheses of T1/T4/T6 hold of the executable instances -/
 theorem executable_lengths (pw b k m r : Bytes) (e id i : Nat) (ext : Bool) :
